@@ -75,3 +75,13 @@ claim("C14",
       "clades and heights (tolerance 1e-9 because of the 1.0/(2(n-2)) float constants); CSV round trip on concrete values.",
       TB, "symbolic execution (CrossHair+z3) of distance-matrix compilation, MRCA search, NJ and UPGMA with symbolic edge lengths against ancestor-chain oracles",
       "DESIGN.md 3/C14")
+
+claim("C16",
+      "Bounded symbolic execution of parsimony_score / fitch_down_pass: rooted binary shapes per shard, every matrix cell a symbolic choice "
+      "over nucleotides, an ambiguity code, gap and missing, gaps_as_missing symbolic, and symbolic integer weights (the score is linear in "
+      "them, so z3 decides the identity score == sum w_j * min_j for every weight vector). Oracle: Sankoff dynamic programme over all "
+      "assignments of states to internal nodes (independent of Fitch). Also: per-character scores add up, invariance under rerooting at a "
+      "symbolic edge and child reversal, and purity under call histories (m1, m2 = m1 with one symbolic cell changed, m1 again, other gap "
+      "treatment on the same matrix object).",
+      TB, "symbolic execution (CrossHair+z3) of Fitch scoring with symbolic weights and symbolic cell choices against a Sankoff DP oracle, incl. call histories",
+      "DESIGN.md 3/C16")
